@@ -465,7 +465,15 @@ def make_world(repo=None):
     sp['json'] = lambda it: _mod('json')
     sp['shutil'] = lambda it: _mod('shutil')
     sp['glob'] = lambda it: _mod('glob')
-    sp['itertools'] = lambda it: _mod('itertools')
+    def _groupby(it, iterable, key=None):
+        """itertools.groupby: maximal runs of consecutive elements with equal keys (A-groupby: modelled)"""
+        out = []
+        for x in it.iterate(iterable):
+            k = it.call(key, [x], {}) if key is not None else x
+            if out and it.known_eq(out[-1][0], k): out[-1][1].append(x)
+            else: out.append((k, [x]))
+        return [(k, list(g)) for k, g in out]
+    sp['itertools'] = lambda it: _mod('itertools', groupby=PBuiltin(_groupby, 'groupby'))
     sp['logging'] = lambda it: _mod('logging', getLogger=PBuiltin(lambda it, *a: LogObj()))
     sp['typing'] = lambda it: TypingModule('typing')
     sp['typing_extensions'] = lambda it: TypingModule('typing_extensions')
